@@ -24,7 +24,9 @@ def iterate(model, m, recon, integ, q0, cfl, nit, mode="steps"):
     if mode == "snapshots":
         with np.errstate(all="ignore"):
             dt0 = float(np.min(disc.calc_timestep(f, cfl)))
-            res = solver.solve(f, cfl, [1.3 * k * dt0 for k in range(1, nit + 1)])
+            # (the iteration bound never binds while the maximum principle holds -- the step can only grow; it keeps a tree on
+            # which the data blow up, and the step collapses, from looping for ever inside flowdyn)
+            res = solver.solve(f, cfl, [1.3 * k * dt0 for k in range(1, nit + 1)], stop={"maxit": 3 * nit + 10})
         return out + [r.data[0].copy() for r in res]
     with np.errstate(all="ignore"):
         for _ in range(nit):
@@ -168,7 +170,12 @@ def run(tier):
                      "limiters and rk3ssp are covered exactly for convection and by tokens elsewhere",
                      "total variation is the periodic one"],
         mc_runs=[("MC_Scalar", "MC_Scalar.cfg", 16)] if tier == "quick" else [("MC_Scalar", "MC_Scalar_f.cfg", 16), ("MC_Scalar", "MC_Scalar_f5.cfg", 16)],
-        groups=[("Judge_Scalar", recs)], prefixes=["C09"], sig_of=sig_of)
+        groups=[("Judge_Scalar", recs)], prefixes=["C09"], sig_of=sig_of,
+        symbolic=("Apa_Scalar", ["InvFirstOrder", "InvMuscl", "InvHarten"],
+                  "model level, beyond the grid: Apa_Scalar.tla proves with Apalache/Z3, for ALL data, ALL Courant numbers <= 1/2 "
+                  "(<= 1 first order) and ANY limiter value inside the region of C12, that a forward-Euler step of linear "
+                  "convection stays between the two upwind neighbours (Harten coefficient in [0,1]); SSP stages are convex "
+                  "combinations of such steps (RK.tla); Burgers stays bounded-model + code level"))
 
 
 if __name__ == "__main__":
